@@ -99,6 +99,10 @@ func (e *Engine) verifyFunction(fn *ssa.Function, ct *Contract, sweepOnly bool) 
 	}
 	if ct != nil && !exit.pc.IsFalse() {
 		for _, en := range ct.Ensures {
+			if ct.Opts["assume-ensures"] != "" {
+				vc.assumption("postconditions of %s are assumed, not checked against its body (ghost ownership semantics)", key)
+				break
+			}
 			vars := x.frameVars(fr, true)
 			x.bindResults(fn, results, vars)
 			env := x.newEnv(fr, exit, x.entry, vars, fn)
